@@ -537,6 +537,16 @@ func (r *pwRun) resolve(sel string, rnd *core.Rand) (int, string) {
 				break
 			}
 		}
+	case "parked", "yielded":
+		// parked: the node whose apply loop stands at a yield point inside a commit batch; yielded: the node whose
+		// apply loop parked last (since the last "run until parked" step began).  No fallback: the step is skipped.
+		pick = r.yieldedNode
+		if sel == "parked" {
+			pick = r.parkedNode()
+		}
+		if !up(pick) {
+			return -1, "none"
+		}
 	case "focus": // the follower that still hears the leader while the other one's links are slow
 		for pass := 0; pass < 2 && pick < 0; pass++ {
 			for i := 0; i < pwNNodes; i++ {
@@ -560,6 +570,7 @@ func (r *pwRun) resolve(sel string, rnd *core.Rand) (int, string) {
 
 func (r *pwRun) step(i int, op POp) *core.Violation {
 	rnd := core.NewRand(op.Seed ^ uint64(i)*0x9e3779b97f4a7c15)
+	r.releaseDue(i)
 	for _, n := range r.c.nodes {
 		if n != nil && n.disk != nil {
 			n.disk.SetTag(i)
@@ -591,6 +602,9 @@ func (r *pwRun) step(i int, op POp) *core.Violation {
 		// a slow network, not a fault: the messages on the node's links stay queued (in order) for
 		// at most 3 s of virtual time - less than the shortest election timeout
 		x, role := r.resolve(op.Sel, rnd)
+		if x < 0 {
+			return nil
+		}
 		ms := op.Ms
 		if ms <= 0 || ms > 3000 {
 			ms = 3000
@@ -634,8 +648,30 @@ func (r *pwRun) step(i int, op POp) *core.Violation {
 		r.logf("op%d xfer to n%d ok=%v", i, mi, r.leaderHint == mi)
 		return v
 	case "run":
+		if op.Until == "parked" {
+			// until the apply loop of some node stands at a yield point inside a commit batch
+			if r.ay == nil {
+				r.logf("op%d run %dms until parked: skipped", i, op.Ms)
+				return nil
+			}
+			r.yieldedNode = -1
+			stop := func() bool { return r.parkedNode() >= 0 }
+			r.pumpStop = stop
+			defer func() { r.pumpStop = nil }()
+			v := r.runUntil(time.Duration(op.Ms)*time.Millisecond, rnd, true, stop)
+			r.logf("op%d run %dms until parked: n%d", i, op.Ms, r.parkedNode())
+			return v
+		}
 		r.logf("op%d run %dms", i, op.Ms)
 		return r.runFor(time.Duration(op.Ms)*time.Millisecond, rnd, true)
+	case "aresume":
+		x, role := r.resolve(op.Sel, rnd)
+		if x < 0 || !r.resumeApply(x, op.All) {
+			r.logf("op%d aresume skipped", i)
+			return nil
+		}
+		r.logf("op%d aresume %s all=%v parked_again=%v", i, role, op.All, r.parkedOf(x) != nil)
+		return r.checkCommitted()
 	case "pump":
 		r.logf("op%d pump %d %s %s", i, op.N, op.Only, op.Until)
 		if op.Only == "vote" {
@@ -678,6 +714,9 @@ func (r *pwRun) step(i int, op POp) *core.Violation {
 			return nil
 		}
 		x, role := r.resolve(op.Sel, rnd)
+		if x < 0 {
+			return nil
+		}
 		net := r.c.net
 		net.mu.Lock()
 		for k := 0; k < pwNNodes; k++ {
@@ -721,10 +760,15 @@ func (r *pwRun) step(i int, op POp) *core.Violation {
 		return r.heal()
 	case "flush":
 		x, role := r.resolve(op.Sel, rnd)
+		if x < 0 {
+			r.logf("op%d flush skipped", i)
+			return nil
+		}
 		n := r.c.nodes[x]
 		if n == nil || !r.c.isAlive(n) {
 			return nil
 		}
+		r.noteFlush(x)
 		done := make(chan struct{})
 		go func() { defer close(done); n.eng.ForceFlush() }()
 		r.wait()
@@ -878,6 +922,10 @@ func (r *pwRun) crash(i int, op POp, rnd *core.Rand) *core.Violation {
 		return nil
 	}
 	x, role := r.resolve(op.Sel, rnd)
+	if x < 0 {
+		r.logf("op%d crash skipped", i)
+		return nil
+	}
 	if r.cutNode >= 0 {
 		if r.cutNode != x || r.paused {
 			r.logf("op%d crash skipped", i)
@@ -910,6 +958,7 @@ func (r *pwRun) crash(i int, op POp, rnd *core.Rand) *core.Violation {
 		}
 	}
 	r.c.net.mu.Unlock()
+	r.noteKill(x)
 	journal := r.c.kill(n)
 	n.frozen = len(journal)
 	k, torn := len(journal), -1
@@ -1054,6 +1103,7 @@ func (r *pwRun) crash(i int, op POp, rnd *core.Rand) *core.Violation {
 			fmt.Printf("JOURNAL n%d %s%s\n", x, mark, journal[q].String())
 		}
 	}
+	n.lastSnap = pwLastSnapshotPos(journal, k)
 	dir := pwImagePath(r.env.Scratch, x, n.inc+1)
 	if err := simfs.CopyTree(n.init, dir); err != nil {
 		panic(core.InfraPanic("copy tree: " + err.Error()))
@@ -1185,6 +1235,7 @@ func (r *pwRun) closing() *core.Violation {
 	rnd := core.NewRand(r.cs.Seed ^ 0xc105)
 	r.phase = "closing"
 	r.opi = len(r.cs.Ops)
+	r.releaseAll() // faults stop: every apply loop runs freely from here on
 	// faults stop: heal, restart, perfect network
 	if v := r.over(r.heal(), "closing"); v != nil {
 		return v
